@@ -237,11 +237,84 @@ fn rejection(part: usize, parts: usize) -> (u64, u64, u64, Vec<Viol>) {
     (docs, accepted, rejected, viols)
 }
 
+/// The hasher is a type parameter: the round trip must hold whatever the serialised form of `B` is - a unit struct (JSON `null`),
+/// a newtype (a bare number), a tuple struct (an array), an Option field that is None, a string.
+macro_rules! shape_hasher {
+    ($name:ident, $($def:tt)*) => {
+        #[derive(Clone, Debug, PartialEq, Eq, Serialize, Deserialize)]
+        $($def)*
+        impl BuildHasher for $name {
+            type Hasher = SeedHasherState;
+            fn build_hasher(&self) -> SeedHasherState {
+                SeedHasherState(17, 0)
+            }
+        }
+    };
+}
+shape_hasher!(UnitHasher, struct UnitHasher;);
+shape_hasher!(NewtypeHasher, struct NewtypeHasher(u64););
+shape_hasher!(TupleHasher, struct TupleHasher(u64, u8););
+shape_hasher!(OptionHasher, struct OptionHasher { key: Option<u64> });
+shape_hasher!(StringHasher, struct StringHasher(String););
+shape_hasher!(EnumHasher, enum EnumHasher { Plain, Keyed(u64) });
+
+fn hasher_shapes() -> (u64, Vec<Viol>) {
+    let mut viols: Vec<Viol> = vec![];
+    let mut n = 0u64;
+    fn one<B: BuildHasher + Clone + PartialEq + Eq + std::fmt::Debug + Serialize + serde::de::DeserializeOwned>(bh: B, name: &str, n: &mut u64, viols: &mut Vec<Viol>) {
+        for b in [4usize, 7] {
+            for fill in [0u8, 3] {
+                *n += 1;
+                let m = 1usize << b;
+                let regs: Vec<u8> = (0..m).map(|i| if fill == 0 { 0 } else { (i % 5) as u8 }).collect();
+                let r = mccore::panics::catch(|| -> Result<(), String> {
+                    let mut h: HyperLogLog<u64, B> = HyperLogLog::with_registers_and_hash(b, regs.clone(), bh.clone());
+                    h.add(&12345);
+                    let doc = serde_json::to_string(&h).map_err(|e| format!("serialise fails: {}", e))?;
+                    let g: HyperLogLog<u64, B> = serde_json::from_str(&doc).map_err(|e| format!("its own output {} is rejected: {}", if doc.len() < 200 { doc.clone() } else { format!("{}...", &doc[..200]) }, e))?;
+                    if g.registers() != h.registers() || g.b() != h.b() || g.buildhasher() != h.buildhasher() || g.count() != h.count() {
+                        return Err("the deserialised sketch differs from the original".into());
+                    }
+                    let v = serde_json::to_value(&h).map_err(|e| format!("to_value fails: {}", e))?;
+                    let gv: HyperLogLog<u64, B> = serde_json::from_value(v).map_err(|e| format!("its own output as a serde_json::Value is rejected: {}", e))?;
+                    if gv.registers() != h.registers() || gv.buildhasher() != h.buildhasher() {
+                        return Err("the Value round trip gives a different sketch".into());
+                    }
+                    Ok(())
+                });
+                let msg = match r {
+                    Ok(Ok(())) => continue,
+                    Ok(Err(m)) => m,
+                    Err(p) => format!("panics: {}", p),
+                };
+                viols.push(Viol { property: "C20".into(), signature: format!("hll serde round trip with hasher shape {}", name), message: format!("HyperLogLog<u64, {}> b={}: {}", name, b, msg), replay: json!({"structure": "HyperLogLog", "b": b, "buildhasher_type": name, "registers": if fill == 0 { "one add" } else { "i mod 5 + one add" }}) });
+                return;
+            }
+        }
+    }
+    one(UnitHasher, "unit struct (serialises as null)", &mut n, &mut viols);
+    one(NewtypeHasher(7), "newtype struct (serialises as a number)", &mut n, &mut viols);
+    one(TupleHasher(7, 9), "tuple struct (serialises as an array)", &mut n, &mut viols);
+    one(OptionHasher { key: None }, "struct with a None field", &mut n, &mut viols);
+    one(OptionHasher { key: Some(5) }, "struct with a Some field", &mut n, &mut viols);
+    one(StringHasher("k".into()), "newtype of a String", &mut n, &mut viols);
+    one(EnumHasher::Plain, "enum, unit variant (serialises as a string)", &mut n, &mut viols);
+    one(EnumHasher::Keyed(3), "enum, newtype variant (serialises as a map)", &mut n, &mut viols);
+    (n, viols)
+}
+
 fn main() {
     let args = parse_args();
     let mut run = Runner::new("C20", &args.tier, "model_checking");
     let thorough = run.thorough();
     // ---- round trips ---------------------------------------------------------------------
+    {
+        let (n, vs) = hasher_shapes();
+        run.ev.set("hasher_shape_round_trips", json!(n));
+        for v in vs {
+            run.violation(v);
+        }
+    }
     let bs: Vec<usize> = (4..=18).collect();
     let res = par_map(&bs, n_threads(), |&b| {
         let u = hll::universe(b);
